@@ -96,7 +96,7 @@ func (c dchange) stok() string {
 	case "MO":
 		return join("MO", opt(c.eschema), hx(c.ename), strconv.Itoa(len(c.vals2)-len(c.vals)))
 	case "RO":
-		return join("RO", hx(c.ename), hx(c.ename2))
+		return join("RO", opt(c.eschema), hx(c.ename), opt(c.eschema), hx(c.ename2))
 	}
 	panic("unmodelled change " + c.k)
 }
